@@ -278,58 +278,94 @@ def compat(facts):
 
 
 def bitops(facts):
-    """union/intersect/invert: OR / AND / NOT over every byte, and the returned count accumulates the RESULT byte on every iteration"""
+    """union/intersect/invert: OR / AND / NOT over every byte, and the returned count accumulates the RESULT byte on every iteration.
+    Decided on the normalised AST (pointer cursors are index loops, S15): every loop runs i = 0 .. length_bytes without jumps; the
+    store `tgt[i] op= src[i]` (or tgt[i] = tgt[i] op src[i], through single-assignment locals) happens once per byte; the counted
+    value is tgt[i] read after the store, or the very expression that was stored; one loop, or a store loop followed by a count loop"""
+    from astu import single_assignment_locals
     fns = functions_by(facts, ["filters"])
     out = []
-    want = {"union_with": "|=", "intersect": "&=", "invert": "~"}
+    want = {"union_with": "|", "intersect": "&", "invert": "~"}
     for pat, fn in sorted(fns.items()):
         if not (fn["qname"].startswith("datasketches::bit_array_ops::") and fn["name"] in want):
             continue
         key = "bit_array_ops::%s" % fn["name"]
         loops = []
-        walk(fn["body"], lambda n: loops.append(n) if n.get("k") == "For" else None)
-        if len(loops) != 1:
-            out.append(ob("bloom.bitops", key, fn["pat"], "unrecognised", "expected exactly one loop", fn["qname"]))
-            continue
-        L = loops[0]
-        body = stmts_of(L["b"])
+        walk(fn["body"], lambda n: loops.append(n) if n.get("k") in ("For", "RangeFor", "While", "Do") else None)
+        sa = single_assignment_locals(fn)
+        T = fn["params"][0]["n"]
+        S = fn["params"][1]["n"] if fn["name"] != "invert" else None
+        LEN = fn["params"][-1]["n"]
         problems = []
-        jumps = []
-        walk(L["b"], lambda n: jumps.append(n["k"]) if n.get("k") in ("Continue", "Break", "Return", "If", "Switch") else None)
-        if jumps:
-            problems.append("loop body contains %s: the per-byte count is skipped on some iterations" % "/".join(sorted(set(jumps))))
-        if "length_bytes" not in txt(L["c"]) or not txt(L["c"]).startswith("(i<"):
-            problems.append("loop bound is `%s`, not i < length_bytes" % txt(L["c"]))
-        if L.get("init") and L["init"].get("k") == "Decl" and txt(L["init"]["vars"][0].get("init")) != "0":
-            problems.append("loop does not start at 0")
-        op_at, cnt_at = None, None
-        tgt_name = fn["params"][0]["n"]
-        for i, s in enumerate(body):
-            e = s.get("e") if s.get("k") == "Expr" else None
-            if e and e.get("k") == "Assign" and strip(e["l"]).get("k") == "Index" and txt(strip(e["l"])["b"]) == tgt_name:
-                if want[fn["name"]] == "~":
-                    r = strip(e["r"])
-                    if e["op"] == "=" and r.get("k") == "Un" and r.get("op") == "~" and txt(r["e"]) == txt(e["l"]):
-                        op_at = i
-                elif e["op"] == want[fn["name"]] and txt(e["r"]) == "%s[i]" % fn["params"][1]["n"]:
-                    op_at = i
-            if e and e.get("k") == "Assign" and e["op"] == "+=" and "count()" in txt(e["r"]):
-                cnt_at = i
-        if op_at is None:
-            problems.append("no `%s[i] %s ...` over the source byte found" % (tgt_name, want[fn["name"]]))
-        if cnt_at is None:
-            problems.append("count is not accumulated at the top level of the loop body")
-        elif op_at is not None and cnt_at < op_at:
-            problems.append("bits are counted before the operation is applied (count of the old value)")
-        # the counted value must be the target element
-        bits_src = []
-        walk(L["b"], lambda n: [bits_src.append(txt(v["init"])) for v in n.get("vars", []) if "bitset" in v.get("t", "") and v.get("init") is not None] if n.get("k") == "Decl" else None)
-        if bits_src and not any(("%s[i]" % tgt_name) in b for b in bits_src):
-            problems.append("the counted byte is `%s`, not the result byte %s[i]" % (bits_src[0], tgt_name))
+        events = []      # (loop number, kind, text)
+        if not loops or len(loops) > 2:
+            out.append(ob("bloom.bitops", key, fn["pat"], "unrecognised", "expected one loop over the bytes (or a store loop followed by a count loop), found %d" % len(loops), fn["qname"]))
+            continue
+        op = want[fn["name"]]
+        for ln, L in enumerate(loops):
+            jumps = []
+            walk(L.get("b"), lambda n: jumps.append(n["k"]) if n.get("k") in ("Continue", "Break", "Return", "If", "Switch", "Cond", "For", "While", "Do", "RangeFor") else None)
+            if jumps:
+                problems.append("loop body contains %s: the per-byte work is skipped on some iterations" % "/".join(sorted(set(jumps))))
+            iv = None
+            if L.get("k") == "For" and isinstance(L.get("init"), dict) and L["init"].get("k") == "Decl" and len(L["init"].get("vars", [])) == 1:
+                v0 = L["init"]["vars"][0]
+                if txt(v0.get("init")) == "0" and "++" in txt(L.get("inc") or {}):
+                    iv = v0.get("n")
+            if iv is None:
+                problems.append("loop does not run an index from 0 in steps of one")
+                continue
+            if txt(L.get("c"), sa).replace(" ", "") not in ("(%s<%s)" % (iv, LEN), "(%s>%s)" % (LEN, iv), "(%s!=%s)" % (iv, LEN), "(%s!=%s)" % (LEN, iv)):
+                problems.append("loop bound is `%s`, not %s < %s" % (txt(L.get("c"), sa), iv, LEN))
+            cell = "%s[%s]" % (T, iv)
+            src = "%s[%s]" % (S, iv) if S else None
+            for st in stmts_of(L["b"]):
+                e = strip(st.get("e")) if st.get("k") == "Expr" else None
+                if isinstance(e, dict) and e.get("k") == "Assign" and txt(e["l"], sa).replace(" ", "") == cell:
+                    r = txt(e["r"], sa).replace(" ", "")
+                    if op == "~":
+                        good = e["op"] == "=" and r == "~" + cell
+                    else:
+                        good = (e["op"] == op + "=" and r == src) or (e["op"] == "=" and r in ("(%s%s%s)" % (cell, op, src), "(%s%s%s)" % (src, op, cell)))
+                    events.append((ln, "store" if good else "badstore", txt(e), r if e["op"] == "=" else None))
+                elif isinstance(e, dict) and e.get("k") == "Assign" and e["op"] == "+=" and "count()" in txt(e["r"]):
+                    # what the counted bitset was constructed from
+                    o = strip_all(e["r"]).get("obj") if isinstance(strip_all(e["r"]), dict) else None
+                    val = None
+                    if isinstance(o, dict) and o.get("k") == "Ref" and o.get("d") in sa:
+                        c0 = sa[o["d"]]
+                        if isinstance(c0, dict) and c0.get("k") == "Construct" and len(c0.get("args", [])) == 1:
+                            val = txt(c0["args"][0], sa).replace(" ", "")
+                    elif isinstance(o, dict) and o.get("k") == "Construct" and len(o.get("args", [])) == 1:
+                        val = txt(o["args"][0], sa).replace(" ", "")
+                    events.append((ln, "count", val, cell))
+                elif isinstance(e, dict) and e.get("k") == "Assign":
+                    lt = txt(e["l"], sa)
+                    if T in lt or (S and S in lt):
+                        events.append((ln, "badstore", txt(e), None))
+        stores = [x for x in events if x[1] == "store"]
+        bad = [x for x in events if x[1] == "badstore"]
+        counts = [x for x in events if x[1] == "count"]
+        if bad:
+            problems.append("unexpected write `%s`" % bad[0][2])
+        if len(stores) != 1:
+            problems.append("no single `%s[i] %s ...` over the source byte found" % (T, (op + "=") if op != "~" else "= ~"))
+        if len(counts) != 1:
+            problems.append("count is not accumulated exactly once at the top level of a loop body")
+        if len(stores) == 1 and len(counts) == 1 and not bad:
+            st, ct = stores[0], counts[0]
+            if (ct[0], events.index(ct)) < (st[0], events.index(st)):
+                problems.append("bits are counted before the operation is applied (count of the old value)")
+            elif ct[2] is None or not (ct[2] == ct[3] or (st[3] is not None and ct[2] == st[3] and ct[0] == st[0])):
+                problems.append("the counted byte is `%s`, not the result byte %s" % (ct[2], ct[3]))
+            if len(loops) == 2 and (st[0] != 0 or ct[0] != 1):
+                problems.append("two loops that are not a store loop followed by a count loop")
+        elif len(loops) == 2 and not problems:
+            problems.append("two loops that are not a store loop followed by a count loop")
         if problems:
             out.append(ob("bloom.bitops", key, fn["pat"], "violated", "; ".join(problems), fn["qname"]))
         else:
-            out.append(ob("bloom.bitops", key, fn["pat"], "discharged", "every byte is combined with `%s` and the count accumulates the result byte on every iteration" % want[fn["name"]], fn["qname"]))
+            out.append(ob("bloom.bitops", key, fn["pat"], "discharged", "every byte is combined with `%s` and the count accumulates the result byte on every iteration" % op, fn["qname"]))
     return out
 
 
